@@ -222,7 +222,7 @@ func (w *World) projectOne() map[string]interface{} {
 	out["mem"] = w.projectMem()
 	origOk, _ := w.UserOwnedEqual()
 	rs := append([]int{}, w.Ghost.ReadySteps...)
-	out["ghost"] = map[string]interface{}{"readySteps": rs, "created": w.Ghost.Created, "origOk": origOk, "brEver": w.Ghost.BrEver, "jumpBack": w.Ghost.JumpBack, "lateChange": w.Ghost.LateChange, "disSup": w.Ghost.DisSup, "midSwitch": w.Ghost.MidSwitch, "readyRepl": w.Ghost.ReadyRepl}
+	out["ghost"] = map[string]interface{}{"readySteps": rs, "created": w.Ghost.Created, "origOk": origOk, "brEver": w.Ghost.BrEver, "jumpBack": w.Ghost.JumpBack, "lateChange": w.Ghost.LateChange, "disSup": w.Ghost.DisSup, "supBack": w.Ghost.SupBack, "midSwitch": w.Ghost.MidSwitch, "readyRepl": w.Ghost.ReadyRepl}
 	out["quiet"] = w.WL.Quiescent(w) && !w.gcPending()
 	// wake-up state of the two work queues; stuck: nothing will ever run again without a user action
 	stuck := !w.Q.RoPending && !w.Q.BrPending && !w.Q.RoTimer && !w.Q.BrTimer && w.WL.Quiescent(w) && !w.gcPending() && !w.tickUseful()
